@@ -1,9 +1,13 @@
 import Driver.Enc
 import Driver.Prim
+import Driver.Disk
 
 def main (args : List String) : IO UInt32 := do
   match args with
   | ["enc"] => Driver.Enc.main; return 0
   | ["prim"] => Driver.lineLoop Driver.Prim.step (); return 0
+  | ["disk", "mem"] => Driver.lineLoop Driver.Disk.memStep none; return 0
+  | ["disk", "file"] => Driver.lineLoop Driver.Disk.fileStep none; return 0
+  | ["disk", "spec"] => Driver.lineLoop Driver.Disk.specStep none; return 0
   | ["wt"] => Driver.lineLoop Driver.Prim.wtStep (); return 0
   | _ => IO.eprintln "usage: driver <enc|prim|wt>"; return 2
